@@ -19,6 +19,14 @@
 //! output: per snapshot `T<#tasks in the JoinSet>|R0:m<made>:p<handled>:s<0|1>:<inbox>|R1:…`,
 //!   `<inbox>` = `none` | `open:<queued>` | `closed:<leftover>`; snapshots joined by `;`
 //!
+//!   a request whose `send_to_actor` call does not return within 5 s of virtual time ends the
+//!   run: the snapshot list then ends with `wedged` (oracle class `owner-wedged`)
+//!
+//! Oracle epilogue (not compared with the model): a fair continuation (tasks run, cleanup
+//! runs), one more `RemoteInfo` request per remote that was used, 5 s of virtual time; every
+//! request must then have been handled in order and answered (`never-answered`,
+//! `request-dropped`, `out-of-order`, …), and no `send_to_actor` call may hang (`owner-wedged`).
+//!
 //! Runs the real `RemoteMap` + spawned `RemoteStateActor`s through
 //! `iroh::verif_hooks::remote_map::MapDriver`; order of handling and actor life cycle come
 //! from `iroh::verif_hooks::remote_state::set_observer`; replies from the real oneshots.
@@ -138,6 +146,11 @@ impl Shared {
         req.rx = None;
     }
 }
+
+/// Virtual-time bound on one `send_to_actor` call and on the answer to a request once the
+/// system runs fairly.  On the paused clock a hanging call costs no real time: when nothing
+/// is runnable the clock jumps to the deadline.
+const DEADLINE: Duration = Duration::from_secs(5);
 
 fn port_of(r: usize) -> u16 {
     1000 + r as u16
@@ -295,6 +308,7 @@ impl C21 {
         set_observer(Some(Box::new(move |ev| observe(&obs, ev))));
         let mut snaps = Vec::new();
         let mut tags = Vec::new();
+        let mut wedged = false;
         for act in acts {
             match act {
                 Act::Request(i, k) => {
@@ -309,11 +323,23 @@ impl C21 {
                     if was_closed {
                         tags.push("restart-by-request".to_string());
                     }
-                    let rx = if *k == 'a' {
+                    let sent = if *k == 'a' {
                         let addr = EndpointAddr::from_parts(id, [TransportAddr::Ip(SocketAddr::from(([127, 0, 0, 1], port_of(r))))]);
-                        Rx::Resolve(d.resolve_remote(addr).await)
+                        tokio::time::timeout(DEADLINE, d.resolve_remote(addr)).await.map(Rx::Resolve)
                     } else {
-                        Rx::Info(d.request_info(id).await)
+                        tokio::time::timeout(DEADLINE, d.request_info(id)).await.map(Rx::Info)
+                    };
+                    let Ok(rx) = sent else {
+                        // the map owner is stuck inside send_to_actor: the request was never
+                        // handed to an actor
+                        sh.borrow_mut().faults.push((
+                            "owner-wedged".into(),
+                            format!("request {r} for remote {i}: send_to_actor did not return within {DEADLINE:?} (sender present: {}, closed: {:?}, tasks in the JoinSet: {})",
+                                d.has_sender(id), d.sender_closed(id), d.tasks_len()),
+                        ));
+                        wedged = true;
+                        snaps.push("wedged".to_string());
+                        break;
                     };
                     {
                         let mut s = sh.borrow_mut();
@@ -347,11 +373,58 @@ impl C21 {
 
         // Epilogue (oracle only): a fair continuation — tasks run, cleanup runs — after which
         // every request must have been handled, in order, and answered.
-        for _ in 0..6 {
-            Self::quiesce().await;
-            while d.cleanup_one().is_some() {}
+        sh.borrow_mut().armed = [0, 0];
+        if !wedged {
+            for _ in 0..6 {
+                Self::quiesce().await;
+                while d.cleanup_one().is_some() {}
+            }
+            // one more request for every remote that was used: whatever the history left
+            // behind in the map, a later request must still get through and be answered
+            for i in 0..2 {
+                if sh.borrow().made[i].is_empty() {
+                    continue;
+                }
+                let id = self.ids[i];
+                let r = {
+                    let mut s = sh.borrow_mut();
+                    let r = s.next_id;
+                    s.next_id += 1;
+                    r
+                };
+                match tokio::time::timeout(DEADLINE, d.request_info(id)).await {
+                    Ok(rx) => {
+                        let mut s = sh.borrow_mut();
+                        s.made[i].push(r);
+                        s.reqs.push(Req { id: r, remote: i, rx: Some(Rx::Info(rx)), verdict: Verdict::Waiting, is_info: true });
+                    }
+                    Err(_) => {
+                        sh.borrow_mut().faults.push((
+                            "owner-wedged".into(),
+                            format!("a later request for remote {i}: send_to_actor did not return within {DEADLINE:?} (sender present: {}, closed: {:?}, tasks in the JoinSet: {})",
+                                d.has_sender(id), d.sender_closed(id), d.tasks_len()),
+                        ));
+                        wedged = true;
+                        break;
+                    }
+                }
+            }
         }
-        Self::quiesce().await;
+        if !wedged {
+            for _ in 0..3 {
+                Self::quiesce().await;
+                while d.cleanup_one().is_some() {}
+            }
+            tokio::time::advance(DEADLINE).await;
+            // (the deadline may let an actor idle out: keep the continuation fair)
+            for _ in 0..3 {
+                Self::quiesce().await;
+                while d.cleanup_one().is_some() {}
+            }
+        }
+        if wedged {
+            tags.push("wedged".to_string());
+        }
         let mut faults = std::mem::take(&mut sh.borrow_mut().faults);
         {
             let mut s = sh.borrow_mut();
@@ -361,6 +434,7 @@ impl C21 {
             }
             for q in &s.reqs {
                 match q.verdict {
+                    Verdict::Waiting if wedged => {}
                     Verdict::Waiting => faults.push(("never-answered".into(), format!("request {} of remote {}", q.id, q.remote))),
                     Verdict::Dropped => faults.push(("request-dropped".into(), format!("request {} of remote {}: reply channel closed without an answer", q.id, q.remote))),
                     Verdict::Failed => faults.push(("answered-with-error".into(), format!("request {} of remote {}", q.id, q.remote))),
@@ -369,6 +443,13 @@ impl C21 {
                 }
             }
             for i in 0..2 {
+                if wedged {
+                    // the run was cut short; what was handled must still be a prefix of what was made
+                    if !s.made[i].starts_with(&s.handled[i]) {
+                        faults.push(("out-of-order".into(), format!("remote {i}: made {:?}, handled {:?}", s.made[i], s.handled[i])));
+                    }
+                    continue;
+                }
                 if s.handled[i] != s.made[i] {
                     let mut sorted_h = s.handled[i].clone();
                     sorted_h.sort();
@@ -425,6 +506,19 @@ impl Prop for C21 {
         out.push("q0a;y;x01;t61;o;o;y;t61;c".into());
         out.push("q0a;q1a;y;x01;x11;t61;c;c;y".into());
         out.push("q0a;q1a;y;x01;t61;q1i;q0i;y;c".into());
+        // two remotes idle out before the owner polls cleanup; a request for one joins the other's
+        // finished task on the way; LATER requests for either must still get through
+        for (ka, kb) in [('a', 'a'), ('a', 'i'), ('i', 'a'), ('i', 'i')] {
+            for gap in ["", "t1;", "t30;"] {
+                for (first, second) in [(1, 0), (0, 1)] {
+                    out.push(format!("q0{ka};y;{gap}q1{kb};y;t65;q{first}{kb};q{second}{ka};y"));
+                    out.push(format!("q0{ka};y;{gap}q1{kb};y;t65;q{first}{kb};y;c;q{second}{ka};y;c"));
+                }
+            }
+        }
+        out.push("q0a;q1a;y;x01;t61;q1a;q0a;y".into());
+        out.push("q0a;q1a;y;x11;t61;q1a;q0a;y;c".into());
+        out.push("q0a;q1a;y;t61;q1i;y;t61;q0i;q1i;y".into());
         // more requests than the inbox holds, without letting the actor run in between
         out.push(format!("{};y;t61;c", vec!["q0i"; 20].join(";")));
         // all orders of {request, idle expiry (with a race), hand-off by request, cleanup} after a warm-up
@@ -451,6 +545,19 @@ impl Prop for C21 {
                     11..=12 => "c".to_string(),
                     _ => "o".to_string(),
                 });
+            }
+            if two && rng.chance(1, 3) {
+                // make sure both remotes exist, let both idle out, then request both again
+                let mut pre = vec!["q0a".to_string(), "q1i".to_string(), "y".to_string()];
+                pre.append(&mut acts);
+                acts = pre;
+                acts.push(format!("t{}", *rng.pick(&[61u64, 65, 120])));
+                let first = rng.below(2);
+                acts.push(format!("q{first}{}", *rng.pick(&['a', 'i'])));
+                if rng.bool() {
+                    acts.push(rng.pick(&["y", "c", "o"]).to_string());
+                }
+                acts.push(format!("q{}{}", 1 - first, *rng.pick(&['a', 'i'])));
             }
             if rng.chance(1, 40) {
                 acts.push("z9".into()); // malformed
